@@ -241,6 +241,14 @@ pub fn run(run: &mut Run) -> Finish {
         b"", b")]}'\n", b")]}'\r\n", b")]}'\r", b")]}'", b")]}\r\n", b"'\n", b"]\n\n", b")\r\r\n", b")\n\r\n", b"}garbage text here\n", b"}\r", b"x\n", b"\n", b")]}'\n)]}'\n",
         b")]}'\r\r", b"'''''''''''''''''''''''''''''''''''''''''''''''''''''''''''''''''''''''\r\n",
     ];
+    // headers longer than BufReader's 8 KiB buffer: the header state must survive refills
+    let long_a: Vec<u8> = { let mut v = vec![b'\'']; v.extend(std::iter::repeat(b'x').take(8190)); v.extend_from_slice(b"\r\n"); v };
+    let long_b: Vec<u8> = { let mut v = vec![b')']; v.extend(std::iter::repeat(b']').take(8191)); v.push(b'\n'); v };
+    let long_c: Vec<u8> = { let mut v = vec![b'}']; v.extend(std::iter::repeat(b' ').take(8189)); v.extend_from_slice(b"\r\r\n"); v };
+    let mut special = special;
+    special.push(&long_a);
+    special.push(&long_b);
+    special.push(&long_c);
     let ns = special.len() as u64;
     run.par_slice("canonical/irregular headers x 6 bodies: every uniform chunk size 1..=16 and every choice of <= 2 cut points anywhere", 3, ns * nb, |idx, l| {
         let k = idx & ((1 << 40) - 1);
@@ -251,9 +259,27 @@ pub fn run(run: &mut Run) -> Finish {
         for size in 1..=16usize {
             scheds.push((1..n).filter(|p| p % size == 0).collect());
         }
-        for a in 1..n {
+        // cut candidates: everywhere for short streams; around the interesting offsets for long ones
+        let cand: Vec<usize> = if n <= 400 {
+            (1..n).collect()
+        } else {
+            let hl = special[(k / nb) as usize].len();
+            let mut c: Vec<usize> = vec![];
+            for centre in [1usize, 2, 4096, 8192, hl - 2, hl - 1, hl, hl + 1, n - 1] {
+                for d in 0..7usize {
+                    let p = (centre + d).saturating_sub(3);
+                    if p >= 1 && p < n {
+                        c.push(p);
+                    }
+                }
+            }
+            c.sort();
+            c.dedup();
+            c
+        };
+        for (i, &a) in cand.iter().enumerate() {
             scheds.push(vec![a]);
-            for b in a + 1..n {
+            for &b in &cand[i + 1..] {
                 scheds.push(vec![a, b]);
             }
         }
